@@ -562,7 +562,8 @@ class Path:
         self.obl_count += 1
         status, backend, det, wit = "unknown", "?", detail, None
         if isinstance(atom, bool):
-            status, backend = ("proved" if atom else "refuted"), "eval"
+            # decided by the symbolic executor itself (structure of the result, concrete integers, syntactic facts)
+            status, backend = ("proved" if atom else "refuted"), "symex"
         elif isinstance(atom, FAtom):
             backend = "polyid"
             ok = self.pc.prove_zero(atom.p) if atom.eq else self.pc.prove_nonzero(atom.p)
